@@ -232,7 +232,7 @@ func SolveAll(obls []*Obl, header string, opts SolveOpts, workers int) {
 func lightHeader(h string) string {
 	var out []string
 	for _, l := range strings.Split(h, "\n") {
-		if strings.HasPrefix(l, "(assert (forall") {
+		if strings.HasPrefix(l, "(assert (forall") && !strings.Contains(l, "(idx o i)") {
 			continue
 		}
 		out = append(out, l)
